@@ -25,6 +25,8 @@ mod k_graph;
 mod facts;
 #[cfg(feature = "k_gen")]
 mod k_resp;
+#[cfg(feature = "k_gen")]
+mod k_req;
 #[cfg(feature = "k_dflt")]
 mod k_dflt;
 #[cfg(feature = "k_enum")]
@@ -47,6 +49,10 @@ fn dispatch(op: &str, input: &mut Value) -> OpResult {
   #[cfg(feature = "k_gen")]
   if op == "naming.scopes" {
     return k_graph::eval("graph.emit", input);
+  }
+  #[cfg(feature = "k_gen")]
+  if op.starts_with("interop.req") {
+    return k_req::eval(op, input);
   }
   match ns {
     #[cfg(feature = "k_naming")]
